@@ -50,6 +50,52 @@ def run(ctx):
                 for d in (1, -1, 2, -2, 256, -256, 65536):
                     nv = (val + d) % (1 << (8 * w))
                     cases.append((arch[:off] + nv.to_bytes(w, "little") + arch[off + w:], "lenfield"))
+        # headers longer than 64 KiB (level 3: one large unknown extended header; level 1: two) with a common CRC, built so
+        # that the CRC state after len mod 2^16 bytes equals the final one (any check that folds only part of the
+        # header then still accepts the stored value): substitutions in both parts, the CRC field, the last bytes
+        nbig = 0
+        for lv in ([3, 1] if ctx.quick else [3, 1, 3, 3, 1, 2]):
+            if lv == 2:
+                continue        # a level-2 header cannot exceed 64 KiB (16-bit total length)
+            f = hdrgen.rfields(rnd, lv=lv)
+            f["clen"] = 0
+            if lv == 1:
+                f["name"] = b"big"
+            big = [bytes(rnd.randrange(256) for _ in range(n)) for n in
+                   ([rnd.randrange(65600, 70000)] if lv == 3 else [rnd.randrange(30000, 33000), rnd.randrange(36000, 40000)])]
+            mk = lambda last2: dict(f, exts=[(0, b"\0\0")] + [(0x99, b) for b in big[:-1]] + [(0x99, big[-1][:-2] + last2)])
+            if lb.normalise(mk(b"\0\0")) is None:
+                continue
+            z = lb.build_header(mk(b"\0\0"), fix_common_crc=False)
+            fs = 4 if lv == 3 else 2
+            k = len(z) % 65536
+            if len(z) <= 65536 or k < 40:
+                continue
+            target = lb.crc16(z[:k])
+            s0 = lb.crc16(z[:len(z) - fs - 2])
+            last2 = None
+            for v in range(65536):
+                if lb.crc16(bytes([v & 255, v >> 8]) + bytes(fs), s0) == target:
+                    last2 = bytes([v & 255, v >> 8])
+                    break
+            if last2 is None:
+                continue
+            hdr = lb.build_header(mk(last2))
+            arch = hdr + b"\0"
+            if not lb.intact(arch):
+                raise common.Broken("generated >64 KiB header is not intact by the independent predicate")
+            nbig += 1
+            cases.append((arch, "big-valid"))
+            poss = [rnd.randrange(k, len(hdr)) for _ in range(40 if ctx.quick else 150)] + \
+                   [rnd.randrange(0, k) for _ in range(15 if ctx.quick else 60)] + \
+                   [len(hdr) - 1 - i for i in range(8)] + [k - 1, k, k + 1, 65535, 65536, 65537]
+            for pos in poss:
+                v = rnd.choice([hdr[pos] ^ 1, hdr[pos] ^ 0x80, (hdr[pos] + 1) & 255, rnd.randrange(256)])
+                if v != hdr[pos]:
+                    cases.append((arch[:pos] + bytes([v]) + arch[pos + 1:], "big-subst"))
+            for cut in (len(hdr) - 1, 65536, 65535, k, len(hdr) // 2):
+                cases.append((arch[:cut], "big-trunc"))
+        dist["big_headers"] = nbig
         lines = ["hdr %s %s" % (rnd.choice(["file", "cbskip", "cbnoskip", "pipe"]) if k != "subst" else "cbskip",
                                 a.hex() if a else "-") for a, k in cases]
         co = common.run_lines_parallel([cexe], lines)
@@ -72,7 +118,8 @@ def run(ctx):
                 mism.append({"case": ln[:3000], "c": c[:600], "model": m[:600]})
         cov = {"evaluations": len(cases), "distinct_nontrivial": nontriv,
                "rule": "%d generated headers (all levels, with and without a common-CRC header): all 255 substitutions at every "
-                       "byte position (exhaustive), every truncation, +-1/+-2/+-256/+65536 on each length field; a case is "
+                       "byte position (exhaustive), every truncation, +-1/+-2/+-256/+65536 on each length field; headers longer than 64 KiB (level 3 and level 1, common CRC, CRC state "
+                       "after len mod 2^16 bytes = final state) with substitutions before and after that point and truncations; a case is "
                        "non-trivial when the independent predicate says the mutated header is NOT intact (then the library must "
                        "not return it)" % len(bases),
                "exhaustive": True, "distribution": dict(dist), "samples": [lines[0][:200], lines[1][:200], lines[-1][:200]]}
